@@ -23,6 +23,7 @@ import subprocess
 from . import pylite
 from .pylite import Unsupported
 
+EXTRA_BREAKS = {0x1C, 0x1D, 0x1E, 0x85, 0x2028, 0x2029}  # = PathQuote.unescapedBreaks
 SRC_Q = "xonsh/lib/completion_quoting.py"
 SRC_P = "xonsh/completers/path.py"
 
@@ -277,8 +278,18 @@ def generate(repo):
     out.append(lean_ranges("specialRanges", "the character class of completion_quoting._PATTERN: " + (info["pattern"] if info else "?").replace("-/", "- /"), special))
     out.append("/-- the `\\bWORD\\b` alternatives of _PATTERN -/")
     out.append("def keywords : List Str := [" + ", ".join(lean_str(k) for k in keywords) + "]\n")
-    out.append("/-- path._CONTROL_CHAR_ESCAPE -/")
-    out.append("def ctrl : List (Char × Str) := [" + ", ".join(f"(Char.ofNat {k}, {lean_str(v)})" for k, v in ctrl) + "]\n")
+    # Entries for the six FIXED extra line boundaries of str.splitlines (the `lineSeparator` class of the model: names with
+    # them are outside the theorem's guard whatever the table says) are emitted separately, so that a repair which adds
+    # escapes for them does not invalidate the obligations about the documented five; for every name WITHOUT those
+    # characters `str.translate` with the full table and with `ctrl` coincide.  Today `ctrlExtra` is empty.
+    base = [(k, v) for k, v in ctrl if k not in EXTRA_BREAKS]
+    extra = [(k, v) for k, v in ctrl if k in EXTRA_BREAKS]
+    out.append("/-- path._CONTROL_CHAR_ESCAPE (without entries for the six extra line boundaries, see `ctrlExtra`) -/")
+    out.append("def ctrl : List (Char × Str) := [" + ", ".join(f"(Char.ofNat {k}, {lean_str(v)})" for k, v in base) + "]\n")
+    out.append("/-- entries of _CONTROL_CHAR_ESCAPE whose key is one of PathQuote.unescapedBreaks (none in the unchanged source) -/")
+    out.append("def ctrlExtra : List (Char × Str) := [" + ", ".join(f"(Char.ofNat {k}, {lean_str(v)})" for k, v in extra) + "]\n")
+    out.append("theorem ctrlExtra_keys : ctrlExtra.all (fun kv => PathQuote.unescapedBreaks.contains kv.1) = true := by decide\n")
+    fps["_CONTROL_CHAR_ESCAPE"] = f"{len(base)} entries" + (f" + {len(extra)} for extra line boundaries" if extra else "")
     rw = re.compile(r"\w")
     out.append(lean_ranges("wordRanges", "CPython: characters matching `\\w` in a str pattern", ranges(lambda ch: rw.match(ch) is not None)))
     out.append(lean_ranges("idStartRanges", "CPython: characters c with `c.isidentifier()`", ranges(lambda ch: ch.isidentifier())))
